@@ -182,11 +182,9 @@ func (state *Runtime) Let(name string, val interface{}) {
 
 // SetOrLet calls Set() (if a variable with the given name is visible from the current scope) or Let() (if there is no variable with the given name in the current or any parent scope).
 func (state *Runtime) SetOrLet(name string, val interface{}) {
-	_, err := state.resolve(name)
-	if err != nil {
+	// (a name that resolves - as a global or a default variable - is not necessarily a variable that can be set)
+	if err := state.Set(name, val); err != nil {
 		state.Let(name, val)
-	} else {
-		state.Set(name, val)
 	}
 }
 
